@@ -440,7 +440,15 @@ struct SmallSetEngine : EngineBase {
         size_t cnt = 9;
         E *e = make_hold(x);
         const Set &cs = s;
-        window([&] { fit = cs.find(*e); c = cs.contains(*e); cnt = cs.count(*e); });
+        bool irreflexive = true, maxok = true;
+        window([&] {
+          fit = cs.find(*e); c = cs.contains(*e); cnt = cs.count(*e);
+          // key_comp()/value_comp() are copies of the stored comparator (provenance monitor) and strict
+          irreflexive = !cs.key_comp()(*e, *e) && !cs.value_comp()(*e, *e);
+          maxok = static_cast<size_t>(cs.max_size()) >= static_cast<size_t>(cs.size());
+          (void)cs.get_allocator();
+        });
+        if (!threw && (!irreflexive || !maxok)) violation("C04", "model.observers", "key_comp()/value_comp() not strict or max_size() < size()");
         drop_hold();
         if (threw) { violation("C04", "model.unexpected_exception", threw_what); return; }
         {
